@@ -227,6 +227,10 @@ pub fn grammar_histories(thorough: bool, with_k: bool) -> (Vec<History>, serde_j
         let mut v: Vec<Vec<OutKind>> = kinds.iter().map(|k| vec![*k]).collect();
         for a in &kinds {
             for b in &kinds {
+                // C08 quick: two-output patterns over {A, K, N} only (same address through two script types, address-less)
+                if with_k && !thorough && !(matches!(a, A | K | N) && matches!(b, A | K | N)) {
+                    continue;
+                }
                 v.push(vec![*a, *b]);
             }
         }
